@@ -31,7 +31,7 @@ REQUIRED_MONITORS = ["weights_nonnegative", "weights_sum_to_one", "flat_unchange
 REQUIRED_BUCKETS = {"quick": ["geom:pinhole", "geom:slit(L,0)", "geom:slit(0,W)", "geom:slit(L,W)", "geom:2d",
                               "grid:linear", "grid:log", "grid:irregular", "qcalc:default", "qcalc:user", "n:1", "n:2",
                               "sigma>q", "zero_width", "grid_extension_hits_zero", "perpoint", "directmodel", "directmodel:mixed-zero", "directmodel:widths-changed-on-same-data-object", "q-order:not-ascending", "acc:low", "acc:med", "acc:high",
-                              "acc:xhigh", "2d:on-axis-pixels", "q-grid:value-listed-twice", "q-grid:end-point-listed-twice"]}
+                              "acc:xhigh", "2d:on-axis-pixels", "q-grid:value-listed-twice", "q-grid:end-point-listed-twice", "pinhole:nsigma-given", "2d:stale-q-column"]}
 REQUIRED_BUCKETS["thorough"] = REQUIRED_BUCKETS["quick"]
 
 _state = {"installed": False, "current": None, "evals": 0}
@@ -82,8 +82,9 @@ def judge_support(q, qc, geom, ctx, chk):
             s = widths[0][i]
             if s <= 0:
                 continue
-            lo, hi = max(qi - 2.5*s, 0.02*qmin), qi + 3.0*s
-            if qi - 2.5*s < 0:
+            nlo_, nhi_ = ctx.get("_nsigma", (2.5, 3.0))
+            lo, hi = max(qi - nlo_*s, 0.02*qmin), qi + nhi_*s
+            if qi - nlo_*s < 0:
                 lo = 0.02*qmin   # reflected part of the window lies at smaller |q|
         else:
             L, Wd = widths[0][i], widths[1][i]
@@ -237,13 +238,19 @@ def run_batch(case, rec):
                     ctx["user_q_calc"] = False
                 if np.any(sig > q):
                     rec.bucket("sigma>q")
+                # the truncation of the Gaussian is the caller's choice: default, a number, or a (low, high) pair
+                nsig_arg = [None, None, 4.0, (4.0, 5.0), 2.0, (1.5, 3.5)][int(rng.integers(6))] if not hits_zero else None
+                nsig_pair = (2.5, 3.0) if nsig_arg is None else (nsig_arg, nsig_arg) if np.isscalar(nsig_arg) else nsig_arg
+                if nsig_arg is not None:
+                    rec.bucket("pinhole:nsigma-given")
                 qc = None
                 if user_qcalc:
-                    lo, hi = max(float(np.min(q - 2.5*sig)), float(np.min(q))*0.02), float(np.max(q + 3*sig))
+                    lo, hi = max(float(np.min(q - nsig_pair[0]*sig)), float(np.min(q))*0.02), float(np.max(q + nsig_pair[1]*sig))
                     extra = np.linspace(lo, hi, int(rng.integers(50, 400)))
                     qc = _merge(q, extra, zero)
-                ctx.update(sigma_rel=rel if not zero else 0.0, _widths=(sig,))
-                _run_1d(rec, lambda: resolution.Pinhole1D(q, sig, q_calc=qc), q, zero, ctx, geom, n)
+                ctx.update(sigma_rel=rel if not zero else 0.0, _widths=(sig,), _nsigma=nsig_pair, nsigma=nsig_arg)
+                _run_1d(rec, (lambda: resolution.Pinhole1D(q, sig, q_calc=qc)) if nsig_arg is None else
+                        (lambda: resolution.Pinhole1D(q, sig, q_calc=qc, nsigma=nsig_arg)), q, zero, ctx, geom, n)
             elif geom.startswith("slit"):
                 span = float(np.max(q) - np.min(q)) if n > 1 else float(q[0])
                 L = float(10**rng.uniform(-3, 0))*max(span, float(np.min(q))) if "L" in geom else 0.0
@@ -349,6 +356,11 @@ def _run_2d(rec, rng, q, zero, ctx):
         rec.bucket("2d:on-axis-pixels")
         ctx["on_axis_pixels"] = int(on.sum())
     d.q_data = q.copy()
+    if int(rng.integers(2)):
+        # the object's redundant |q| column left over from before its coordinates were rewritten (unit conversion, beam
+        # centre correction after loading): the pixels are where qx_data, qy_data say they are
+        d.q_data = q*float(rng.choice([10.0, 0.1, 1.37]))
+        rec.bucket("2d:stale-q-column")
     rel_r, rel_t = float(10**rng.uniform(-2.5, -0.3)), float(10**rng.uniform(-2.5, -0.3))
     d.dqx_data = q*rel_r
     d.dqy_data = q*rel_t
